@@ -62,6 +62,8 @@ pub struct ACfg {
     pub transfer_syntaxes: Vec<&'static str>,
     pub promiscuous: bool,
     pub access: Access,
+    /// the acceptor's own maximum PDU length (None = library default)
+    pub acc_max: Option<u32>,
 }
 
 #[derive(Clone, Debug)]
@@ -241,6 +243,9 @@ fn build(cfg: &ACfg) -> Box<dyn Acceptor> {
         .promiscuous(cfg.promiscuous)
         .read_timeout(IO_TIMEOUT)
         .write_timeout(IO_TIMEOUT);
+    if let Some(m) = cfg.acc_max {
+        o = o.max_pdu_length(m);
+    }
     for a in &cfg.abstract_syntaxes {
         o = o.with_abstract_syntax(*a);
     }
@@ -494,7 +499,7 @@ fn loopback(acc: &dyn Acceptor, rq: &Pdu) -> Result<WireObs, String> {
 }
 
 fn cfg_json(c: &ACfg) -> Value {
-    json!({"abstract_syntaxes": c.abstract_syntaxes, "transfer_syntaxes": c.transfer_syntaxes, "promiscuous": c.promiscuous, "access": format!("{:?}", c.access)})
+    json!({"abstract_syntaxes": c.abstract_syntaxes, "transfer_syntaxes": c.transfer_syntaxes, "promiscuous": c.promiscuous, "access": format!("{:?}", c.access), "acceptor_max_pdu_length": c.acc_max})
 }
 
 fn ts_list_sig(ts: &[String]) -> String {
@@ -671,7 +676,7 @@ fn acceptor_configs() -> Vec<ACfg> {
     for a in &as_sets {
         for t in &ts_sets {
             for p in [false, true] {
-                out.push(ACfg { abstract_syntaxes: a.clone(), transfer_syntaxes: t.clone(), promiscuous: p, access: Access::Any });
+                out.push(ACfg { abstract_syntaxes: a.clone(), transfer_syntaxes: t.clone(), promiscuous: p, access: Access::Any, acc_max: [None, Some(4096), Some(16_384), Some(131_072)][out.len() % 4] });
             }
         }
     }
@@ -762,10 +767,10 @@ pub fn run(cfg: &Cfg) -> Outcome {
     }
     if want("triples") && cfg.thorough() {
         let triple_cfgs: Vec<ACfg> = vec![
-            ACfg { abstract_syntaxes: vec![AS_VERIFICATION, AS_CT], transfer_syntaxes: vec![], promiscuous: false, access: Access::Any },
-            ACfg { abstract_syntaxes: vec![AS_VERIFICATION, AS_CT], transfer_syntaxes: vec![TS_EXPLICIT], promiscuous: false, access: Access::Any },
-            ACfg { abstract_syntaxes: vec![AS_VERIFICATION], transfer_syntaxes: vec![], promiscuous: true, access: Access::Any },
-            ACfg { abstract_syntaxes: vec![], transfer_syntaxes: vec![TS_UNKNOWN, TS_IMPLICIT], promiscuous: true, access: Access::Any },
+            ACfg { abstract_syntaxes: vec![AS_VERIFICATION, AS_CT], transfer_syntaxes: vec![], promiscuous: false, access: Access::Any, acc_max: None },
+            ACfg { abstract_syntaxes: vec![AS_VERIFICATION, AS_CT], transfer_syntaxes: vec![TS_EXPLICIT], promiscuous: false, access: Access::Any, acc_max: None },
+            ACfg { abstract_syntaxes: vec![AS_VERIFICATION], transfer_syntaxes: vec![], promiscuous: true, access: Access::Any, acc_max: Some(8192) },
+            ACfg { abstract_syntaxes: vec![], transfer_syntaxes: vec![TS_UNKNOWN, TS_IMPLICIT], promiscuous: true, access: Access::Any, acc_max: Some(8192) },
         ];
         let m = per_ctx.len();
         let np = m * m * m;
@@ -848,7 +853,7 @@ pub fn run(cfg: &Cfg) -> Outcome {
                 max_len: ml,
                 user: u,
             };
-            let c = ACfg { abstract_syntaxes: vec![AS_VERIFICATION], transfer_syntaxes: vec![], promiscuous: idx % 2 == 1, access: ac };
+            let c = ACfg { abstract_syntaxes: vec![AS_VERIFICATION], transfer_syntaxes: vec![], promiscuous: idx % 2 == 1, access: ac, acc_max: [None, Some(4096), Some(65_536)][(idx % 3) as usize] };
             let replay = || json!({"seed": cfg.seed, "stream": 4, "leg": "reject", "case": idx});
             evaluate(l, &req, &c, true, &replay, false);
             l.count("reject_matrix_cases", 1);
@@ -912,6 +917,7 @@ pub fn run(cfg: &Cfg) -> Outcome {
                 transfer_syntaxes: tcfg,
                 promiscuous: rng.chance(1, 3),
                 access: rng.pick(&[Access::Any, Access::CalledAe, Access::Custom]).clone(),
+                acc_max: *rng.pick(&[None, None, Some(1018), Some(4096), Some(16_384), Some(32_762), Some(131_072)]),
             };
             let mut req = Req::plain(ctxs, if rng.chance(1, 3) { *rng.pick(&MAX_ITEMS) } else { Some(rng.next_u32()) });
             if rng.chance(1, 10) {
